@@ -157,12 +157,19 @@ def validate(ctx, mods: list[str], ex: Exploration, per_fn: int = 60) -> None:
                                            what=f"site extraction failed: {e}", case={"module": m, "site": sn}))
                 continue
             # names the source module itself can see (imported helpers such as `trace_nearest`, `interp_linear`, `exp`)
-            for k_, v_ in vars(importlib.import_module(site["file"][:-3].replace("/", "."))).items():
+            pyvars = vars(importlib.import_module(site["file"][:-3].replace("/", ".")))
+            for k_, v_ in pyvars.items():
                 senv.setdefault(k_, v_)
+            for k_, v_ in site.get("rename", {}).items():       # `nf.voltage_thresholding_constant` -> the function it names
+                if v_ not in site["params"]:
+                    try:
+                        senv.setdefault(v_, eval(k_, dict(pyvars)))  # noqa: S307 - an attribute path of /repo's own module
+                    except Exception:  # noqa: BLE001
+                        pass
             fnp = tuple(p for p, k in site["params"].items() if k in ("fn", "fn2", "fnb"))
             entries.append((sn, sitemod.compile_site(fd, senv, fnp), list(site["params"]), site["params"], seg))
         for fn, f, order, params, seg in entries:
-            exact = not any(t in seg for t in TRANSC)
+            exact = not any(t in seg for t in TRANSC) and not item.get("uses")   # callees in other modules may use exp
             for _ in range(per_fn):
                 k = rng.randint(1, 3)
                 wire, kwargs = [], {}
